@@ -22,8 +22,13 @@ Two evaluations:
 """
 from fractions import Fraction
 import math
+import os
 
-import numpy as np
+# the matrices are 5x5: BLAS worker threads only add contention to the 16-process pool
+for _v in ("OPENBLAS_NUM_THREADS", "OMP_NUM_THREADS", "MKL_NUM_THREADS"):
+    os.environ.setdefault(_v, "1")
+
+import numpy as np  # noqa: E402
 
 REL_SLACK = 1e-9  # error <= tol * (1 + REL_SLACK)
 GREY = 1e-6  # float results this close to tol are re-decided exactly
@@ -467,13 +472,20 @@ def hausdorff_lower_bound(cubic, K, O, j, r, samples=17):
     return max(h1, h2)
 
 
+def _bernstein_bound_r1(cubic, K, O, j):
+    """max |control point| of (cubic - degree-elevated quadratic segment j): an upper bound of
+    the same-parameter distance (a Bezier curve lies in the convex hull of its control points)."""
+    a, b, c = K[j], O[j], K[j + 1]
+    return max(abs(cubic[0] - a), abs(cubic[1] - (a + 2 * b) / 3), abs(cubic[2] - (2 * b + c) / 3), abs(cubic[3] - c))
+
+
 def check_qu2cu_output(quads, curves, tol, hausdorff=True):
     """Whole-result oracle for quadratic_to_curves.  Returns (problems, info): problems is a
     list of (fkey_suffix, message); info has counters (merged, max_r, max_err, parses)."""
     K, O = flatten_splines(quads)
     m = len(O)
     cv = [[complex(*p) if not isinstance(p, complex) else p for p in c] for c in curves]
-    info = {"cubics": 0, "quads": 0, "merged": 0, "max_r": 0, "max_err": 0.0, "ambiguous": False, "hausdorff": 0.0}
+    info = {"cubics": 0, "quads": 0, "merged": 0, "max_r": 0, "max_err": 0.0, "ambiguous": False, "hausdorff": 0.0, "selfcheck": None}
     problems = []
     if not cv:
         return [("empty", "no curves returned for %d segments" % m)], info
@@ -501,18 +513,29 @@ def check_qu2cu_output(quads, curves, tol, hausdorff=True):
         if key not in cache:
             c = cv[ci]
             if len(c) == 3:
-                ok, err = check_quad_replaces(c, K, O, j, tol)
+                if c[0] == K[j] and c[1] == O[j] and c[2] == K[j + 1]:
+                    ok, err = True, 0.0  # the input segment itself
+                else:
+                    ok, err = check_quad_replaces(c, K, O, j, tol)
                 cache[key] = (ok, err, "quadratic vs segment %d" % j, 0.0)
+            elif r == 1 and _bernstein_bound_r1(c, K, O, j) <= tol * (1 - GREY):
+                # Bernstein (convex hull) bound of the error curve: sufficient, no root finding
+                cache[key] = (True, _bernstein_bound_r1(c, K, O, j), "", 0.0)
             else:
                 ok, err, det = check_cubic_replaces(c, K, O, j, r, tol)
                 hd = 0.0
-                if hausdorff and r >= 2:
+                # Hausdorff distance <= same-parameter distance for every parametrisation, so
+                # it cannot fail where the parametrised check passed; it decides alone when the
+                # knot parameters are undefined, and cross-checks the oracle near the bound.
+                if hausdorff and r >= 2 and (ok is None or not ok or err > 0.9 * tol):
                     hd = hausdorff_lower_bound(c, K, O, j, r)
-                    if hd > tol * (1 + GREY) + 1e-9:
-                        ok, err, det = False, hd, "Hausdorff distance (parametrisation-free) over segments %d..%d" % (j, j + r - 1)
-                if ok is None:
-                    # undefined knot parameters: only the Hausdorff verdict applies
-                    ok, err = True, hd
+                    if ok is None:
+                        ok, err = hd <= tol * (1 + GREY) + 1e-9, hd
+                        det = "Hausdorff distance (knot parameters undefined) over segments %d..%d" % (j, j + r - 1)
+                    elif ok and hd > err * (1 + 1e-6) + 1e-9:
+                        info["selfcheck"] = "Hausdorff lower bound %r exceeds same-parameter maximum %r" % (hd, err)
+                elif ok is None:
+                    ok, err = True, 0.0
                 cache[key] = (ok, err, det, hd)
         return cache[key]
 
